@@ -151,7 +151,24 @@ def decide(spec, tier, seed):
     replay_path = None
     if failing:
         name, req, text = failing[0]
+        # stateful streams (zone header, configuration history inside one process): the requests that
+        # precede the failing one in its group are part of the replay
+        prefix = None
+        for r in results:
+            grp = getattr(r.meta, "groups", None)
+            if r.name == name and grp:
+                for g in grp:
+                    if req in g:
+                        prefix = g[:g.index(req)]
+                        break
+        prefix_path = None
+        if prefix:
+            os.makedirs(os.path.join(core.VERIF, "replays"), exist_ok=True)
+            prefix_path = os.path.join(core.VERIF, "replays", "%s-prefix-%s.txt" % (pid, hashlib.sha1((req + text).encode()).hexdigest()[:12]))
+            with open(prefix_path, "w") as f:
+                f.write("\n".join(prefix) + "\n")
         replay_path = write_replay(pid, {
+            "preceding_requests_file": prefix_path,
             "property": pid, "kind": "failing-input", "stream": name, "request": req, "observed": text,
             "expected": spec.expected, "other_failing_inputs": [f[2] for f in failing[1:20]],
             "broken": broken[:5], "seed": seed, "tier": tier, "repo_head": repo_head(),
@@ -223,9 +240,17 @@ def replay(spec, path):
     req = payload.get("request")
     reqs = [req] if req else [b.get("request") for b in payload.get("broken", []) if b.get("request")]
     bad = False
+    prefix = []
+    if payload.get("preceding_requests_file") and os.path.exists(payload["preceding_requests_file"]):
+        prefix = [l for l in open(payload["preceding_requests_file"]).read().splitlines() if l.strip()]
     for rq in reqs:
-        resp, raw = core.ask(core.ORACLE, [rq])
-        mresp, _ = core.ask(core.DRIVER, [rq]) if os.path.exists(core.DRIVER) else (["<no driver>"], None)
+        resp_all, raw_all = core.ask(core.ORACLE, prefix + [rq])
+        resp, raw = resp_all[-1:], raw_all[-1:]
+        if os.path.exists(core.DRIVER):
+            m_all, _ = core.ask(core.DRIVER, prefix + [rq])
+            mresp = m_all[-1:]
+        else:
+            mresp = ["<no driver>"]
         print("request: ", rq)
         print("impl:    ", raw[0][:3000])
         print("model:   ", mresp[0][:3000])
